@@ -130,6 +130,13 @@ class CutHere(Exception):
     pass
 
 
+class Alternatives(Exception):
+    """The current instruction must be re-executed once per alternative; alt = (cond, prepare(ts, pst))."""
+
+    def __init__(self, alts):
+        self.alts = alts
+
+
 class PathEnd(Exception):
     """thread finished on this path"""
 
@@ -202,6 +209,9 @@ class World:
         self.flags = {}  # global Boolean flags (assert failures, bound_exceeded): name -> description
         self.statevars = {}  # name -> (sort, init python value)
         self.prims = {}
+        self.prim_access = {}
+        self.reflists = {}  # id(real list mutated by encoded code) -> {"name", "list", "cands"}
+        self.publication_functions = set()  # writes inside these functions happen before the target object is started
         self.changed = False
         self.pass_no = 0
         self.thread_of_obj = {}
@@ -275,6 +285,7 @@ class PathState:
         self.labels = []
         self.reads = set()
         self.steps = 0
+        self.refchoice = {}
 
     def clone(self):
         p = PathState(self.world, self.thread)
@@ -284,6 +295,7 @@ class PathState:
         p.labels = list(self.labels)
         p.reads = set(self.reads)
         p.steps = self.steps
+        p.refchoice = dict(self.refchoice)
         return p
 
     def read(self, name, sort):
@@ -426,6 +438,8 @@ class Explorer:
             if isinstance(v, tuple):
                 return tuple(gv(x, "%s.%d" % (prefix, j)) for j, x in enumerate(v))
             if isinstance(v, SList):
+                if v.elem == "objs":
+                    return SList(v.cap, v.length, list(v.slots), "objs")  # concrete list of distinct objects
                 if v.elem is None:
                     return SList(v.cap, 0, [], None)  # never appended to on any path with this shape: length is 0
                 ln = gv(v.length, prefix + ".len")
@@ -443,6 +457,8 @@ class Explorer:
             if isinstance(v, RangeIter):
                 return RangeIter(gv(v.idx, prefix + ".idx"), gv(v.stop, prefix + ".stop"), v.step)
             if isinstance(v, ListIter):
+                if isinstance(v.lst, SList) and v.lst.elem == "objs":
+                    return ListIter(gv(v.lst, prefix + ".lst"), v.idx)
                 if isinstance(v.lst, (SList, tuple)):
                     return ListIter(gv(v.lst, prefix + ".lst"), gv(v.idx, prefix + ".idx"))
                 return ListIter(v.lst, v.idx)
@@ -778,7 +794,14 @@ class Explorer:
         return None
 
     def alloc_site(self, ts, th, make):
-        key = (th.name,) + tuple((id(f.code), f.cur) for f in ts.frames)
+        iters = []
+        for f in ts.frames:
+            for v in f.stack:
+                if isinstance(v, RangeIter) and isinstance(v.idx, int):
+                    iters.append(int(v.idx))
+                elif isinstance(v, ListIter) and isinstance(v.idx, int):
+                    iters.append(int(v.idx))
+        key = (th.name,) + tuple((id(f.code), f.cur) for f in ts.frames) + ("it",) + tuple(iters)
         if key not in self.w.alloc:
             self.w.alloc[key] = make()
             self.w.keep.append(self.w.alloc[key])
@@ -857,7 +880,9 @@ class Explorer:
         if isinstance(obj, (prims.SimObj, types.ModuleType, type)) or not hasattr(obj, "__dict__"):
             raise VMError("store to attribute %s of %r is not modelled" % (name, obj))
         ci = w.cell(obj, name)
-        ctor = self.in_ctor_of(ts, obj)
+        ctor = self.in_ctor_of(ts, obj) or (bool(w.publication_functions) and
+                                            isinstance(obj, (threading.Thread, _mpp.BaseProcess)) and
+                                            any(fr.code.co_name in w.publication_functions for fr in ts.frames))
         if ctor:
             ci.ctor_written = True
         elif th.name not in ci.writers:
@@ -910,7 +935,63 @@ class Explorer:
         for n, s, e in out:
             pst.write(n, s, e)
 
-    def visible(self, ts, pst, label):
+    # ---- real Python lists of objects that encoded code mutates (pool.procs): one state variable per slot, holding an
+    # index into the table of candidate objects; a read forks on the candidates (Alternatives) and is cached per path
+    def reflist_info(self, lst):
+        return self.w.reflists.get(id(lst))
+
+    def read_reflist(self, ts, pst, lst, idx):
+        info = self.w.reflists[id(lst)]
+        key = (id(lst), idx)
+        shared = len(info["threads"]) > 1
+        if pst.thread not in info["threads"]:
+            info["threads"].add(pst.thread)
+            self.w.changed = True
+        if key in pst.refchoice:
+            return info["cands"][pst.refchoice[key]]
+        if shared:
+            self.visible(ts, pst, "read %s[%d]" % (info["name"], idx))
+        name = "rlist.%s.%d:i" % (info["name"], idx)
+        v = pst.read(name, "i")
+        alts = []
+        for k in range(len(info["cands"])):
+            def prep(t, p, k=k):
+                p.refchoice[key] = k
+            alts.append((v == I(k), prep))
+        raise Alternatives(alts)
+
+    def write_reflist(self, ts, pst, th, lst, idx, obj):
+        w = self.w
+        info = w.reflists.get(id(lst))
+        if info is None:
+            info = {"name": "list%d" % len(w.reflists), "list": lst, "cands": list(lst), "threads": set()}
+            w.reflists[id(lst)] = info
+            w.keep.append(lst)
+            for j, o in enumerate(lst):
+                w.statevars["rlist.%s.%d:i" % (info["name"], j)] = ("i", j)
+            w.changed = True
+        if not any(o is obj for o in info["cands"]):
+            info["cands"].append(obj)
+            w.changed = True
+        if th.name not in info["threads"]:
+            info["threads"].add(th.name)
+            w.changed = True
+        k = [j for j, o in enumerate(info["cands"]) if o is obj][0]
+        if len(info["threads"]) > 1:
+            self.visible(ts, pst, "write %s[%d]" % (info["name"], idx))
+        pst.write("rlist.%s.%d:i" % (info["name"], idx), "i", I(k))
+        pst.refchoice[(id(lst), idx)] = k
+
+    def visible(self, ts, pst, label, prim=None):
+        if prim is not None:
+            acc = self.w.prim_access.setdefault(prim.name, set())
+            if pst.thread not in acc:
+                acc.add(pst.thread)
+                self.w.changed = True
+            if len(acc) <= 1 and not isinstance(prim, prims.SimQueue):
+                # an event / lock that only this thread ever touches: its operations commute with everything else
+                pst.labels.append("(local) " + label)
+                return
         if pst.did_visible:
             raise CutHere()
         pst.did_visible = True
@@ -929,7 +1010,10 @@ class Explorer:
             tn = w.thread_of_obj.get(id(obj))
             if name == "start":
                 if tn is None:
-                    tn = getattr(obj, "_vf_name", None) or "%s" % w.name_of(obj)
+                    tn = getattr(obj, "_vf_name", None)
+                    if tn is None:
+                        base = type(obj).__name__
+                        tn = "%s#%d" % (base, sum(1 for x in w.thread_order if x.split("#")[0] == base))
                     w.add_thread(tn, obj.run, obj)
                 self.visible(ts, pst, "start %s" % tn)
                 pst.write("started.%s:b" % tn, "b", True)
@@ -946,7 +1030,7 @@ class Explorer:
                 self.visible(ts, pst, "is_alive %s" % tn)
                 caller.stack.append(z3.And(pst.read("started.%s:b" % tn, "b"), z3.Not(pst.read("done.%s:b" % tn, "b"))))
                 return None
-        self.visible(ts, pst, label)
+        self.visible(ts, pst, label, prim=obj if isinstance(obj, prims.SimObj) else None)
         if isinstance(obj, prims.SimQueue):
             return self.queue_op(ts, pst, th, obj, name, args, kwargs)
         if isinstance(obj, prims.SimEvent):
@@ -1094,6 +1178,14 @@ class Explorer:
         raise VMError("method %s of %s not modelled" % (name, type(obj).__name__))
 
     def list_append(self, pst, lst, val):
+        if (lst.elem is None or lst.elem == "objs") and isinstance(lst.length, int) and not _has_sym(val) \
+                and not isinstance(val, (int, float, str, bool, tuple, type(None))):
+            # a list of distinct concrete objects (e.g. the worker processes created by mul_p_map)
+            lst.elem = "objs"
+            lst.slots = list(lst.slots[:lst.length]) + [val]
+            lst.length += 1
+            lst.cap = max(lst.cap, lst.length)
+            return
         sh = shape_of(val)
         if lst.elem is None:
             lst.elem = sh
@@ -1242,13 +1334,24 @@ class Explorer:
                         raise VMError("symbolic index into a list of objects")
                 else:
                     has = it.idx < len(lst)
-                    val = lst[it.idx] if has else None
+                    if has and isinstance(lst, list) and id(lst) in self.w.reflists:
+                        val = self.read_reflist(self._cur_ts, pst, lst, it.idx)
+                    else:
+                        val = lst[it.idx] if has else None
 
                     def adv():
                         it.idx += 1
 
                     return has, val, adv
             ln = lst.length
+            if lst.elem == "objs":
+                has = it.idx < ln
+                val = lst.slots[it.idx] if has else None
+
+                def adv():
+                    it.idx += 1
+
+                return has, val, adv
             if isinstance(it.idx, int) and isinstance(ln, int):
                 has = it.idx < ln
             elif isinstance(it.idx, int) and it.idx >= lst.cap:
@@ -1322,6 +1425,7 @@ class Explorer:
         if pst.steps > self.w.max_path_steps:
             raise VMError("local path of thread %s exceeds %d instructions (unbounded local loop?)" % (th.name, self.w.max_path_steps))
         f = ts.frames[-1]
+        self._cur_ts = ts
         if f.ip >= len(f.ins):
             raise VMError("fell off the end of %s" % f.code.co_qualname)
         ins = f.ins[f.ip]
@@ -1335,11 +1439,22 @@ class Explorer:
         m = getattr(self, "op_" + op, None)
         if m is None:
             raise VMError("opcode %s not supported (%s line %s)" % (op, f.code.co_qualname, ins.positions.lineno if ins.positions else "?"))
+        saved_stack = list(st)
         try:
             return m(ts, pst, th, f, ins, st)
         except CutHere:
+            f.stack[:] = saved_stack
             f.ip = f.cur
             raise
+        except Alternatives as alt:
+            f.stack[:] = saved_stack
+            f.ip = f.cur
+            forks = []
+            for cond, prepare in alt.alts:
+                ts2, pst2 = clone_tstate(ts), pst.clone()
+                prepare(ts2, pst2)
+                forks.append((cond, ts2, pst2))
+            return forks
         except VMError as e:
             if not getattr(e, "_located", False):
                 e._located = True
@@ -1583,7 +1698,12 @@ class Explorer:
                 raise VMError("comparison with a float")
         if isinstance(a, SOpt) or isinstance(b, SOpt) or a is None or b is None:
             if opn in ("==", "!="):
-                r = self.is_same(a, b)
+                if isinstance(a, SOpt) and b is not None and not isinstance(b, SOpt):
+                    r = z3.And(z3.Not(a.is_none), as_bool(self.compare("==", a.payload, b)))
+                elif isinstance(b, SOpt) and a is not None and not isinstance(a, SOpt):
+                    r = z3.And(z3.Not(b.is_none), as_bool(self.compare("==", a, b.payload)))
+                else:
+                    r = self.is_same(a, b)
                 return r if opn == "==" else _not(r)
             raise VMError("ordering comparison with None")
         if (isinstance(a, bool) or is_symbool(a)) and (isinstance(b, bool) or is_symbool(b)) and opn in ("==", "!="):
@@ -1676,6 +1796,16 @@ class Explorer:
                 r = ite(k == I(j), c[j], r)
             st.append(r)
             return None
+        if isinstance(c, list) and id(c) in self.w.reflists and isinstance(k, int):
+            st.append(self.read_reflist(ts, pst, c, k))
+            return None
+        if isinstance(c, list) and is_symint(k) and not _has_sym(c):
+            alts = []
+            for j in range(len(c)):
+                def prep(t, p, j=j):
+                    t.frames[-1].stack[-1] = j
+                alts.append((k == I(j), prep))
+            raise Alternatives(alts)
         if not _has_sym(c) and not _has_sym(k):
             try:
                 st.append(c[k])
@@ -1706,6 +1836,17 @@ class Explorer:
             c.slots = [ite(kk == I(j), coerce(v, c.elem), c.slots[j]) for j in range(c.cap)]
             self.writeback(ts, pst, th, c)
             return None
+        if isinstance(c, list) and isinstance(k, int) and not _has_sym(v):
+            self.write_reflist(ts, pst, th, c, k, v)
+            return None
+        if isinstance(c, list) and is_symint(k) and not _has_sym(v):
+            # symbolic index into a real list of objects: case split on the index, then re-execute
+            alts = []
+            for j in range(len(c)):
+                def prep(t, p, j=j):
+                    t.frames[-1].stack[-1] = j
+                alts.append((k == I(j), prep))
+            raise Alternatives(alts)
         raise VMError("item assignment on %r" % (c,))
 
     def op_DELETE_SUBSCR(self, ts, pst, th, f, ins, st):
